@@ -414,23 +414,18 @@ class _Split(SubCheck):
             if res["exc"] is not None:
                 return "exception"
             got = res["out"]
-            stop = None
-            if discard:  # would the outputs be right for an input cut after len(list) listed reads?
-                seen = 0
-                for i, r in enumerate(reads):
-                    if r["name"] in entry:
-                        seen += 1
-                        if seen == len(entry):
-                            stop = i + 1 if i + 1 < n else None
-                            break
-            for trunc in [None] + ([stop] if stop is not None else []):
+            stops = []
+            if discard and any(names.count(nm) >= 2 for nm in entry):
+                # a listed read name occurs twice: are the outputs those of a proper prefix of the input?
+                stops = list(range(n - 1, 0, -1))
+            for trunc in [None] + stops:
                 for fasta in (False, True):
                     if (trunc is None and not fasta) or (fasta and not (fmt == "fastq" and any(r["L"] == 0 for r in reads))):
                         continue
                     if all(got.get(s) == text_of(want(s, trunc=trunc), fasta=fasta) for s in slots):
                         kinds = []
                         if trunc is not None:
-                            kinds.append("early-stop after len(list) listed reads (duplicate read name + --discard-unknown-reads)")
+                            kinds.append("early-stop, outputs are those of a proper prefix of the input (duplicate listed read name + --discard-unknown-reads)")
                         if fasta:
                             kinds.append("FASTQ record with empty sequence rewritten in FASTA form")
                         return " + ".join(kinds)
